@@ -61,6 +61,27 @@ impl RecordsBounds {
         Self::new(start, Self::namespace_end(ns))
     }
 
+    /// Restrict these bounds to the ids of namespace `ns`.
+    ///
+    /// The end points of a reconciliation range come out of a remote peer's message and
+    /// may lie outside of the replica's namespace: a scan must never leave it.
+    pub fn clamp_to_namespace(self, ns: &NamespaceId) -> Self {
+        let Self(start, end) = self;
+        let ns_start = Self::namespace_start(ns);
+        let ns_end = Self::namespace_end(ns);
+        let start = match (&start, &ns_start) {
+            (Bound::Included(a) | Bound::Excluded(a), Bound::Included(b)) if a >= b => start,
+            _ => ns_start,
+        };
+        let end = match (&end, &ns_end) {
+            (Bound::Included(a), Bound::Excluded(b)) if a < b => end,
+            (Bound::Excluded(a), Bound::Excluded(b)) if a <= b => end,
+            (Bound::Included(_) | Bound::Excluded(_), Bound::Unbounded) => end,
+            _ => ns_end,
+        };
+        Self(start, end)
+    }
+
     pub fn as_ref(&self) -> (Bound<RecordsId<'_>>, Bound<RecordsId<'_>>) {
         fn map(id: &RecordsIdOwned) -> RecordsId<'_> {
             (&id.0, &id.1, &id.2[..])
